@@ -55,6 +55,9 @@ def call(op, case, obj_or_data, schema, mode):
     """one codec call -> canonical outcome"""
     cdc, dm, ch = mode
     try:
+        if op == 'enc' and cdc == 'native':
+            from pyasn1.codec.native import encoder as native_encoder
+            return ('ok', repr(native_encoder.encode(obj_or_data)))
         if op == 'enc':
             kw = dict(defMode=dm, maxChunkSize=ch) if cdc == 'ber' else {}
             return ('ok', codec.ENC[cdc].encode(obj_or_data, **kw).hex())
@@ -68,7 +71,7 @@ def call(op, case, obj_or_data, schema, mode):
 def check_encode_purity(rep, case, rng, leave_defaults_out=False):
     from harness.props import c04
     import random as _random
-    for mode in [('ber', True, 0), ('ber', False, 2), ('cer', False, 1000), ('der', True, 0)]:
+    for mode in [('ber', True, 0), ('ber', False, 2), ('cer', False, 1000), ('der', True, 0), ('native', True, 0)]:
         if leave_defaults_out:
             # members equal to their DEFAULT never assigned (the encoder must not materialise them in the value)
             try:
@@ -83,6 +86,18 @@ def check_encode_purity(rep, case, rng, leave_defaults_out=False):
         cmp_before = compare_outcome(obj, peer)
         r1 = call('enc', case, obj, None, mode)
         after = snapshot(case, obj, peer)
+        if mode[0] == 'native':
+            # the native encoder reads through the ordinary accessors, which leave a placeholder (a schema object, not a
+            # value) in the slot of an absent OPTIONAL member - recorded elsewhere (T4) and not a change of the abstract
+            # content, the encoding or the comparison behaviour: compare those three, not the slot layout
+            before = {'abstract': before['abstract']}
+            after = {'abstract': after['abstract']}
+            # the encodings of the value before (taken from an untouched twin) and after the native conversion
+            b_twin = call('enc', case, peer, None, ('ber', True, 0))
+            b_obj = call('enc', case, obj, None, ('ber', True, 0))
+            if b_twin != b_obj:
+                rep.fail('encode-mutates-value', 'BER encoding of the value after native.encode() %s, of an untouched twin %s' % (
+                    str(b_obj)[:120], str(b_twin)[:120]), dict(case.replay, kind='encode-purity', mode=list(mode)))
         cmp_after = compare_outcome(obj, peer)
         r2 = call('enc', case, obj, None, mode)
         replay = dict(case.replay, kind='encode-purity', mode=list(mode))
